@@ -111,6 +111,7 @@ fn main()
     for t in long_loop_terms(&mut rng).iter() { emit_fs(&mut out, t); }
     layout_stream(&mut out, &mut rng);
     wide_register_stream(&mut out, &mut rng);
+    history_stream(&mut out, &mut rng);
     let n = out.finish();
     eprintln!("c05: {} cases", n);
 }
@@ -505,7 +506,7 @@ fn wide_register_stream(out: &mut Out, rng: &mut SplitMix64)
 type Cplx = num_complex::Complex64;
 
 /// `layout`: how the logical rows x cols matrix `data` (row-major) is stored when the gate is applied to it
-fn apply_in_layout(g: &gate::Dyn, layout: &str, rows: usize, cols: usize, data: &[Cplx]) -> Vec<Cplx>
+fn apply_in_layout(g: &dyn Gate, layout: &str, rows: usize, cols: usize, data: &[Cplx]) -> Vec<Cplx>
 {
     use ndarray::{Array2, ShapeBuilder};
     let at = |i: usize, j: usize| data[i * cols + j];
@@ -588,6 +589,13 @@ fn apply_in_layout(g: &gate::Dyn, layout: &str, rows: usize, cols: usize, data: 
             for i in 0..rows { for j in 0..cols { a[[i, j]] = at(i, j); } }
             g.apply_mat_slice(a.view_mut()); a
         },
+        // Gate::apply on a state vector (one column)
+        "vec" => {
+            assert_eq!(cols, 1);
+            let mut v = ndarray::Array1::from_vec(data.to_vec());
+            g.apply(&mut v);
+            Array2::from_shape_vec((rows, 1), v.to_vec()).unwrap()
+        },
         other => panic!("unknown layout {}", other)
     };
     assert_eq!((res.rows(), res.cols()), (rows, cols));
@@ -652,5 +660,97 @@ fn layout_stream(out: &mut Out, rng: &mut SplitMix64)
                 emit_layout(out, layout, term, rows, *cols, &data);
             }
         }
+    }
+}
+
+// ------------------------------------------------------------------------------------------------
+// "history" stream: ONE Composite object built step by step and USED after every add_gate (matrix(), apply on a state vector,
+// apply_mat in two layouts, at two state sizes: its own width and one qubit more); clones taken mid-way (after use) and extended
+// differently; bodies used, extended and then wrapped in a Loop or placed in a wider Composite.  The requests are the ordinary
+// `matrix` / `applymat` requests for the term that spells the sub-gates added SO FAR (the composite's name carries case and
+// step: `inc<case>s<step>`, `cl..` for the clone, `lb..` for a loop body), the answers come from the long-lived object.
+
+fn gen_data(rng: &mut SplitMix64, n: usize) -> Vec<Cplx>
+{
+    (0..n).map(|_| Cplx::new(rng.range(-64, 64) as f64 / 32.0, rng.range(-64, 64) as f64 / 32.0)).collect()
+}
+
+fn use_object(out: &mut Out, g: &dyn Gate, term: &str, step: usize, rng: &mut SplitMix64)
+{
+    let k = g.nr_affected_bits();
+    let ans = catch(std::panic::AssertUnwindSafe(|| show_mat(&g.matrix())));
+    out.case(&format!("matrix {}", term), &ans.unwrap_or_else(|| "panic".to_string()));
+    // state vector: own width and one qubit more; matrices: row-major on the wider state, column-major on the own width
+    let uses: [(&str, usize, usize); 4] = [("vec", 1, 1), ("vec", 2, 1), ("rm", 2, 3), ("cm", 1, 2)];
+    for (i, (layout, mult, cols)) in uses.iter().enumerate()
+    {
+        // every use at every step in thorough; quick: the two state sizes alternate between vector and matrix route
+        if !thorough() && (i + step) % 2 == 1 { continue; }
+        let rows = (1usize << k) * mult;
+        let data = gen_data(rng, rows * cols);
+        let ans = catch(std::panic::AssertUnwindSafe(|| apply_in_layout(g, layout, rows, *cols, &data)));
+        out.case(&format!("applymat {} {} {} {}", layout, cols, term, show_c(&data)),
+            &match ans { Some(v) => format!("ok {} {} {}", rows, cols, show_c(&v)), None => "panic".to_string() });
+    }
+}
+
+/// a sub-gate for a `k`-qubit composite: (term, operands); multi-qubit gates in random operand order preferred
+fn history_op(k: usize, rng: &mut SplitMix64) -> (String, Vec<usize>)
+{
+    let m = if k == 1 || rng.below(4) == 0 { 1 } else { 2 + rng.below((k.min(3) - 1) as u64) as usize };
+    let g = if rng.below(4) == 0 && m <= 2 { gate::gen_term(m, 1, rng) } else if m == 1 { skew1(rng) } else { gate::gen_prim(m, rng) };
+    (g, pick_bits(k, m, rng))
+}
+
+fn comp_term(name: &str, k: usize, ops: &[String]) -> String { format!("Comp {} {} {} {}", name, k, ops.len(), ops.join(" ")).trim_end().to_string() }
+
+fn history_stream(out: &mut Out, rng: &mut SplitMix64)
+{
+    use q1tsim::gates::{Composite, Loop};
+    let ncases = if thorough() { 120 } else { 24 };
+    for case in 0..ncases
+    {
+        let k = 2 + case % 2;
+        let steps = 4 + rng.below(3) as usize;
+        let fork = 1 + rng.below(steps as u64 - 1) as usize;
+        let mut comp = Composite::new(&format!("inc{}", case), k);
+        let mut ops: Vec<String> = vec![];
+        let mut clone: Option<(Composite, Vec<String>)> = None;
+        if case % 3 == 0 { use_object(out, &comp, &comp_term(&format!("inc{}s0", case), k, &ops), 0, rng); }
+        for step in 1..=steps
+        {
+            let (g, bits) = history_op(k, rng);
+            comp.add_gate(gate::parse_str(&g), &bits);
+            ops.push(format!("{} {} {}", g, bits.len(), join(&bits)));
+            use_object(out, &comp, &comp_term(&format!("inc{}s{}", case, step), k, &ops), step, rng);
+            // the clone of the USED composite goes its own way from here
+            if let Some((c2, ops2)) = clone.as_mut()
+            {
+                let (g, bits) = history_op(k, rng);
+                c2.add_gate(gate::parse_str(&g), &bits);
+                ops2.push(format!("{} {} {}", g, bits.len(), join(&bits)));
+                use_object(out, &*c2, &comp_term(&format!("cl{}s{}", case, step), k, ops2), step + 1, rng);
+            }
+            if step == fork { clone = Some((comp.clone(), ops.clone())); }
+        }
+        // the used body, extended once more without a use in between, wrapped in a Loop / placed in a wider Composite
+        let (g, bits) = history_op(k, rng);
+        comp.add_gate(gate::parse_str(&g), &bits);
+        ops.push(format!("{} {} {}", g, bits.len(), join(&bits)));
+        let iters = 1 + rng.below(3) as usize;
+        let lp = Loop::new("hl", iters, comp.clone());
+        use_object(out, &lp, &format!("Loop hl {} {}", iters, &comp_term(&format!("lb{}", case), k, &ops)[5..]), case, rng);
+        let obits = pick_bits(k + 1, k, rng);
+        let h = skew1(rng);
+        let mut outer = Composite::new("ho", k + 1);
+        outer.add_gate(gate::parse_str(&h), &[0]);
+        outer.add_gate(comp.clone(), &obits);
+        let oterm = format!("Comp ho{} {} 2 {} 1 0 {} {} {}", case, k + 1, h, comp_term(&format!("in{}", case), k, &ops), k, join(&obits));
+        use_object(out, &outer, &oterm, case + 1, rng);
+        // the body itself goes on after having been cloned into its hosts
+        let (g, bits) = history_op(k, rng);
+        comp.add_gate(gate::parse_str(&g), &bits);
+        ops.push(format!("{} {} {}", g, bits.len(), join(&bits)));
+        use_object(out, &comp, &comp_term(&format!("inc{}s{}", case, steps + 2), k, &ops), case, rng);
     }
 }
